@@ -37,6 +37,10 @@ func c06U16(v int) []byte { return []byte{byte(v >> 8), byte(v)} }
 // sniffer's initial 4096-byte buffer (still far below the 16 KiB record limit).
 var c06BigPad bool
 
+// c06NoSni: when set, the hello carries no server_name extension (a client that dials an IP
+// literal, or one that only sends an encrypted name).
+var c06NoSni bool
+
 func c06Build(oneShape bool) *c06Hello {
 	h := &c06Hello{}
 	var body []byte
@@ -93,6 +97,9 @@ func c06Build(oneShape bool) *c06Hello {
 	}
 	padding := append([]byte{0, 21}, c06U16(padLen)...)
 	padding = append(padding, make([]byte, padLen)...)
+	if c06NoSni {
+		sni = nil
+	}
 	var exts []byte
 	order := 1
 	if !oneShape || vs.Thorough() {
@@ -448,4 +455,37 @@ func Verif_C06_quic_datagram_intact() {
 		ok = data[0][i] == orig[i]
 	}
 	vs.Assert("the datagram handed on to the relay is byte for byte what the client sent", ok)
+}
+
+// Verif_C06_quic_outcome: what SniffQuic itself concludes once the packet-level work (header
+// protection, AEAD - replaced here: the block yields the CRYPTO frames given) is done, for a
+// ClientHello with or without a server name whose CRYPTO stream is complete or still lacks its
+// tail: the name is found when it is there; an incomplete stream asks for more data; a complete
+// hello without a server name is the "not found" outcome - sniffing must not go on asking for more,
+// because the caller withholds the client's datagrams for as long as it does.
+func Verif_C06_quic_outcome() {
+	c06NoSni = vs.Choice("hello.hasServerName", 2) == 0
+	h := c06Build(true)
+	complete := vs.Choice("cryptoStream.complete", 2) == 1
+	data := h.bytes
+	if !complete {
+		data = data[:len(data)-7]
+	}
+	frames, err := quicutils.ReassembleCryptos(nil, c06Crypto(0, data))
+	vs.Assert("frames accepted", err == nil)
+	vs.Replace("github.com/daeuniverse/dae/component/sniffing.sniffQuicBlock",
+		func(s *Sniffer, cryptos []*quicutils.CryptoFrameOffset, buf []byte) ([]*quicutils.CryptoFrameOffset, []byte, error) {
+			return frames, nil, nil
+		})
+	s := NewPacketSniffer([]byte{0xc0, 0, 0, 0, 1, 0, 0, 0}, time.Second)
+	name, serr := s.SniffQuic()
+	switch {
+	case !complete:
+		vs.Assert("an incomplete CRYPTO stream asks for more data", s.NeedMore() && (serr != nil || NormalizeDomain(name) == h.wantName))
+	case c06NoSni:
+		vs.Assert("a complete hello without a server name is reported as not found", serr != nil)
+		vs.Assert("and sniffing does not keep the client's datagrams waiting for more", !s.NeedMore())
+	default:
+		vs.Assert("the name of a complete hello is found", serr == nil && NormalizeDomain(name) == h.wantName && !s.NeedMore())
+	}
 }
